@@ -343,6 +343,35 @@ Theorem drop_stage_merges_equal_streams :
 Proof. exact metric_drop_witness. Qed.
 Print Assumptions drop_stage_merges_equal_streams.
 
+(* A vector aggregation WITHOUT a by/without clause. By the definition (LogQL / PromQL) `sum(rate(...))` aggregates over all
+   series into ONE series with the empty label set (metric_ref_def); the code keeps one series per stream (AggOpPlanner groups by
+   the stream fingerprint, no regrouping select is planned; the in-process engine does the same), and metric_ref - the reference of
+   the theorems above - follows the code there. The statement "the planned selects compute the DEFINITION" is therefore false:
+   sum(rate({a="b"}[5s])) over the streams {a="b",c="1"}, {a="b",c="2"} gives two series with 0.2 each, the definition one
+   series {} with 0.4 (finding agg-without-grouping-keeps-streams). *)
+Theorem vector_aggregation_without_grouping_refuted :
+  forall re_match parse_float json_get hash_labels fp to_float quantile_o varpop stddevpop,
+  exists p, plan_metric ng_script true = Some p /\ analyze_m15 ng_script = false /\ script_ok ng_script /\
+    db_ok dk_ctx dk_db /\ fp_of_labels_ok dk_db /\ agg_grouped ng_script = false /\
+    option_map (map (fun r => (v_labels r, v_ts r, this (v_val r))))
+      (option_map (map strip) (sem fp to_float quantile_o varpop stddevpop p dk_ctx (base_of re_match parse_float json_get hash_labels ng_script dk_ctx dk_db)))
+      = Some [([("a", "b"); ("c", "1")]%string, 1700000000000000000, (1 # 5)%Q); ([("a", "b"); ("c", "2")]%string, 1700000000000000000, (1 # 5)%Q)] /\
+    option_map (map (fun r => (v_labels r, v_ts r, this (v_val r))))
+      (metric_ref_def to_float quantile_o varpop stddevpop ng_script dk_ctx
+         (map entry_of_out (log_lines re_match parse_float json_get hash_labels ng_script dk_ctx dk_db)))
+      = Some [([], 1700000000000000000, (2 # 5)%Q)].
+Proof. exact agg_without_grouping_refuted_proof. Qed.
+Print Assumptions vector_aggregation_without_grouping_refuted.
+
+(* the partial statement: for every script whose vector aggregation carries a grouping clause (and every script that has no
+   vector aggregation) the reference of the theorems IS the definition, so logql_metric_correct / _from_stored_data are
+   statements about the definition there. Guard satisfiable: ex_script of LogqlMetricProofs (sum by (a) (...)). *)
+Theorem vector_aggregation_partial :
+  forall to_float quantile_o varpop stddevpop s c es, agg_grouped s = true ->
+  metric_ref_def to_float quantile_o varpop stddevpop s c es = metric_ref to_float quantile_o varpop stddevpop s c es.
+Proof. exact metric_ref_def_grouped_proof. Qed.
+Print Assumptions vector_aggregation_partial.
+
 (* ---------- float64: which value expressions are exact (model/LogqlMetricFloat.v says what is approximate) ---------- *)
 (* IEEE model: every operation returns rnd(exact result); the one fact used about rnd: integers of magnitude <= 2^53 are
    representable. sum(...) over integer-valued samples whose absolute values add up to at most 2^53 is exact in EVERY
